@@ -313,6 +313,8 @@ namespace sqf::runtime
         std::chrono::system_clock::time_point m_runtime_timestamp;
         bool m_runtime_error;
 
+        // Point in time the current (or last) run was started at. The maximum runtime is measured from here.
+        std::chrono::system_clock::time_point m_run_timestamp;
         std::chrono::system_clock::time_point m_created_timestamp;
         std::chrono::system_clock::time_point m_current_time;
         sqf::runtime::confighost m_confighost;
@@ -341,6 +343,7 @@ namespace sqf::runtime
             m_runtime_timestamp(std::chrono::system_clock::now()),
 #endif // SQFVM_RUNTIME_VERIF
             m_runtime_error(false),
+            m_run_timestamp(m_runtime_timestamp),
             m_created_timestamp(m_runtime_timestamp),
             m_confighost(),
             m_fileio(std::make_unique<sqf::fileio::disabled>()),
@@ -359,6 +362,8 @@ namespace sqf::runtime
 #else
         void runtime_timestamp_reset() { m_runtime_timestamp = std::chrono::system_clock::now(); }
 #endif // SQFVM_RUNTIME_VERIF
+
+        std::chrono::system_clock::time_point run_timestamp() { return m_run_timestamp; }
 
         sqf::runtime::confighost& confighost() { return m_confighost; }
 
